@@ -64,6 +64,9 @@ struct Prop {
   std::function<void(Runner &, int, int, const std::string &)> enumerate;
   // judge a decoded case from a replay file that has no tape
   std::function<void(const J &, Result &)> judge_json;
+  // run every case in a forked child: the case is then the complete history of its process (needed where the
+  // property is about process-wide state), and a crash becomes an ordinary, shrinkable failure
+  bool isolated = false;
 };
 
 inline std::vector<Prop> &registry() {
@@ -174,9 +177,13 @@ struct Runner {
     journal(tape.data(), tape.size(), 'T');
     Tape t(tape);
     Result r;
-    g_current() = &r;
-    prop->fn(t, r);
-    g_current() = nullptr;
+    if (prop->isolated) {
+      t.i = run_isolated(tape, r);
+    } else {
+      g_current() = &r;
+      prop->fn(t, r);
+      g_current() = nullptr;
+    }
     account(r);
     if (!r.ok) {
       last_fail.tape = tape;
@@ -187,6 +194,8 @@ struct Runner {
     }
     return r;
   }
+  // runs prop->fn(tape) in a forked child and ships the Result back as JSON; returns the number of tape bytes read
+  size_t run_isolated(const std::vector<uint8_t> &tape, Result &r);
   // after rapidcheck's (budgeted) shrinking: drop the unread tail of the tape and try a few more
   // chunk removals / zeroings in-process, keeping the failure signature
   void post_shrink() {
@@ -195,7 +204,10 @@ struct Runner {
     auto still = [&](const std::vector<uint8_t> &cand) {
       Tape t(cand);
       Result r;
-      prop->fn(t, r);
+      if (prop->isolated)
+        t.i = run_isolated(cand, r);
+      else
+        prop->fn(t, r);
       evaluations++;
       if (!r.ok && r.sig == sig) {
         last_fail.tape = cand;
@@ -208,7 +220,7 @@ struct Runner {
     std::vector<uint8_t> cur = last_fail.tape;
     cur.resize(std::min(last_fail_consumed, cur.size()));
     if (!still(cur)) return;  // keeps the rapidcheck result
-    int budget = 400;
+    int budget = prop->isolated ? 60 : 400;  // isolated cases cost a fork (and a whole process history) each
     for (size_t chunk = std::max<size_t>(last_fail.tape.size() / 2, 1); budget > 0; chunk /= 2) {
       for (size_t start = 0; start + chunk <= last_fail.tape.size() && budget > 0;) {
         std::vector<uint8_t> c(last_fail.tape.begin(), last_fail.tape.begin() + (long)start);
@@ -339,6 +351,13 @@ inline std::string crash_signature(const std::string &err, int status) {
       if (w.size() > 40) break;
     }
     kind = "ubsan-" + w;
+  } else if ((p = err.find("WARNING: ThreadSanitizer: ")) != std::string::npos) {
+    size_t e = err.find_first_of("(\n", p + 26);
+    std::string w = err.substr(p + 26, e - (p + 26));
+    while (!w.empty() && w.back() == ' ') w.pop_back();
+    for (auto &ch : w)
+      if (ch == ' ') ch = '-';
+    kind = "tsan-" + w;
   } else if (err.find("Assertion") != std::string::npos) {
     kind = "assert";
   } else if (err.find("VERIF-TIMEOUT") != std::string::npos) {
@@ -494,6 +513,116 @@ inline std::vector<uint8_t> shrink_forked(const Prop &prop, std::vector<uint8_t>
   return tape;
 }
 
+inline size_t Runner::run_isolated(const std::vector<uint8_t> &tape, Result &r) {
+  int pe[2], pr[2];
+  if (pipe(pe) != 0 || pipe(pr) != 0) {
+    r.harness_error = true;
+    r.msg = "pipe failed";
+    return 0;
+  }
+  fflush(stdout);
+  fflush(stderr);
+  pid_t pid = fork();
+  if (pid == 0) {
+    close(pe[0]);
+    close(pr[0]);
+    dup2(pe[1], 2);
+    signal(SIGALRM, on_alarm);
+    alarm(case_timeout);
+    Tape t(tape);
+    Result c;
+    g_current() = &c;
+    prop->fn(t, c);
+    J j = J::obj();
+    j.set("ok", c.ok);
+    j.set("discard", c.discard);
+    j.set("nontrivial", c.nontrivial);
+    j.set("harness_error", c.harness_error);
+    j.set("sig", c.sig);
+    j.set("msg", c.msg);
+    char hb[32];
+    snprintf(hb, sizeof hb, "%016llx", (unsigned long long)c.hash);
+    j.set("hash", hb);
+    J cl = J::arr();
+    for (auto &x : c.classes) cl.push(x);
+    j.set("classes", cl);
+    j.set("sample", c.sample);
+    j.set("consumed", (unsigned long)t.i);
+    std::string s = j.dump();
+    size_t off = 0;
+    while (off < s.size()) {
+      ssize_t w = write(pr[1], s.data() + off, s.size() - off);
+      if (w <= 0) break;
+      off += (size_t)w;
+    }
+    _exit(0);
+  }
+  close(pe[1]);
+  close(pr[1]);
+  std::string res, err;
+  char buf[8192];
+  bool oe = true, orr = true;
+  while (oe || orr) {
+    fd_set fds;
+    FD_ZERO(&fds);
+    int mx = 0;
+    if (oe) {
+      FD_SET(pe[0], &fds);
+      mx = std::max(mx, pe[0]);
+    }
+    if (orr) {
+      FD_SET(pr[0], &fds);
+      mx = std::max(mx, pr[0]);
+    }
+    if (select(mx + 1, &fds, nullptr, nullptr, nullptr) <= 0) break;
+    if (oe && FD_ISSET(pe[0], &fds)) {
+      ssize_t n = read(pe[0], buf, sizeof buf);
+      if (n <= 0)
+        oe = false;
+      else if (err.size() < 200000)
+        err.append(buf, (size_t)n);
+    }
+    if (orr && FD_ISSET(pr[0], &fds)) {
+      ssize_t n = read(pr[0], buf, sizeof buf);
+      if (n <= 0)
+        orr = false;
+      else
+        res.append(buf, (size_t)n);
+    }
+  }
+  close(pe[0]);
+  close(pr[0]);
+  int status = 0;
+  waitpid(pid, &status, 0);
+  alarm(case_timeout);
+  JParser jp(res);
+  J j = res.empty() ? J() : jp.parse();
+  if (WIFEXITED(status) && WEXITSTATUS(status) == 0 && j.t == J::OBJ && jp.ok) {
+    r.ok = j.at("ok").b;
+    r.discard = j.at("discard").b;
+    r.nontrivial = j.at("nontrivial").b;
+    r.harness_error = j.at("harness_error").b;
+    r.sig = j.at("sig").s;
+    r.msg = j.at("msg").s;
+    r.hash = strtoull(j.at("hash").s.c_str(), nullptr, 16);
+    for (auto &x : j.at("classes").a) r.classes.push_back(x.s);
+    r.sample = j.at("sample");
+    return (size_t)j.at("consumed").i();
+  }
+  // the child died: sanitizer report, assertion, signal, hang guard
+  r.ok = false;
+  r.sig = crash_signature(err, status);
+  size_t p = err.find("ERROR:");
+  if (p == std::string::npos) p = err.find("runtime error");
+  if (p == std::string::npos) p = err.find("WARNING: ThreadSanitizer");
+  if (p == std::string::npos) p = 0;
+  size_t le = err.find('\n', p);
+  r.msg = err.substr(p, (le == std::string::npos ? err.size() : le) - p);
+  size_t cs = err.find("VERIF-TIMEOUT-CASE: ");
+  if (cs != std::string::npos) r.msg += " " + err.substr(cs, 600);
+  return tape.size();
+}
+
 inline int harness_main(int argc, char **argv) {
   if (argc < 3) {
     fprintf(stderr, "usage: %s <PROP> rc|enum <shard> <n> <tier>|replay <file>|shrink <journal> [--out F] [--journal F]\n",
@@ -529,6 +658,7 @@ inline int harness_main(int argc, char **argv) {
   if (mode == "rc" || mode == "enum") alarm(runner.case_timeout);  // replay/shrink children have their own guard
 
   if (mode == "rc") {
+    if (prop->isolated) runner.shrink_budget = 80;
     int passed = verif_rc_run(rc_body, &runner, prop->maxlen);
     alarm(0);
     if (runner.harness_error) {
